@@ -40,13 +40,16 @@ theorem parse_depth_bounded (s : List Nat) (f off d : Nat) (h : d ≥ maxDepth) 
 /-! ### whole values -/
 
 /-- **from_json(to_json(v)) = v** for every value built from null, booleans, integers strictly inside the 64-bit range, strings of
-    arbitrary bytes and arrays of such values nested to any depth below the parser's limit: parsing the text `dumpJ` prints returns
-    exactly the value (the whole recursive-descent parser — white space, dispatch on the first character, the number scanner with
-    its terminator rule, the string scanner, the array loop with its `, ` separators, the depth guard and the fuel `jsonLoad`
-    gives it — against the printer).  `plainJ F j` says that `j` is such a value and nests less than `F` deep.
-    PARTIAL with respect to the property: string-keyed maps (objects) are not covered by this theorem (their round trip is decided by
-    the correspondence check), and floating-point values are outside any exact statement (the property itself allows 1e-6). -/
-theorem roundtrip_arrays_partial (F : Nat) (j : J) (d : Nat) (hpl : JRT.plainJ F j = true) (hF : F ≤ maxDepth) :
+    arbitrary bytes, arrays of such values and string-keyed objects with pairwise different keys, nested to any depth below the
+    parser's limit: parsing the text `dumpJ` prints returns exactly the value (keys in their order).  The whole recursive-descent
+    parser is covered — white space, dispatch on the first character, the number scanner with its terminator rule, the string
+    scanner, the array loop with its `, ` separators, the object loop with indentation, `"key" : value`, `,\n` and the closing brace,
+    `operator[]` on the flat map, the depth guard and the fuel `jsonLoad` gives it — against the printer.
+    `plainJ F j` says that `j` is such a value and nests less than `F` deep.
+    PARTIAL with respect to the property: floating-point values are outside any exact statement (the property itself allows 1e-6) and
+    the idempotence clause for arbitrary accepted TEXTS (from_json ∘ to_json ∘ from_json = from_json) is decided by the
+    correspondence check only. -/
+theorem value_roundtrip_partial (F : Nat) (j : J) (d : Nat) (hpl : JRT.plainJ F j = true) (hF : F ≤ maxDepth) :
     jsonLoad (dumpJ F j d) = .ok j := by
   obtain ⟨off, hp, _⟩ := JRT.P_all F j d [] [] [] 0 (4 * (dumpJ F j d).length + 8) hpl (by omega)
     (by intro c hc; simp at hc) (Or.inl rfl) (by omega)
@@ -54,7 +57,8 @@ theorem roundtrip_arrays_partial (F : Nat) (j : J) (d : Nat) (hpl : JRT.plainJ F
   unfold jsonLoad
   rw [hp]
 
-/-- non-vacuity: a nested value with every covered kind is `plainJ`, and (by evaluation) its text parses back -/
-example : JRT.plainJ 4 (.arr [.int (-7), .str [34, 92, 10], .arr [], .arr [.bool true, .null, .arr [.int 0]]]) = true := by decide
+/-- non-vacuity: a nested value with every covered kind satisfies the hypothesis -/
+example : JRT.plainJ 4 (.arr [.int (-7), .str [34, 92, 10], .arr [], .obj [([97], .bool true), ([98, 34], .obj []), ([], .arr [.null, .int 0])]]) = true := by
+  decide
 
 end ChaiVerif.C18
